@@ -1,5 +1,5 @@
-import JadeModel.Proofs.SystemStatus
-import JadeModel.Proofs.SystemOutcome
+import JadeModel.Proofs.SystemStatusDefs
+import JadeModel.Proofs.SystemOutcomeDefs
 
 set_option linter.unusedSimpArgs false
 
@@ -275,3 +275,5 @@ theorem nodeFacts {s : Sys} (hn : NodeInv s) (ha : FlowA s) (hb : FlowB s) : Nod
   · intro p p' a a' n n' hp hp' j hj hj'; exact node_unique hn hp hp' (Or.inr hj) (Or.inr hj')
 
 end Jade.Sys
+
+#realize_aux Jade
